@@ -12,14 +12,28 @@ from sqlparse.utils import recurse, imt
 T_NUMERICAL = (T.Number, T.Number.Integer, T.Number.Float)
 T_STRING = (T.String, T.String.Single, T.String.Symbol)
 T_NAME = (T.Name, T.Name.Placeholder)
+T_DELIMITED = (sql.Parenthesis, sql.SquareBrackets, sql.Case, sql.If,
+               sql.For, sql.Begin)
+
+
+def _delimiters(tlist):
+    """Returns the opening and closing token of a delimited group."""
+    if isinstance(tlist, T_DELIMITED) and tlist.tokens:
+        return tlist.tokens[0], tlist.tokens[-1]
+    return ()
 
 
 def _group_matching(tlist, cls):
     """Groups Tokens that have beginning and end."""
     opens = []
     tidx_offset = 0
+    delimiters = _delimiters(tlist)
     for idx, token in enumerate(list(tlist)):
         tidx = idx - tidx_offset
+
+        if any(token is d for d in delimiters):
+            # the delimiters of an already matched group belong to it
+            continue
 
         if token.is_whitespace:
             # ~50% of tokens will be whitespace. Will checking early
@@ -462,9 +476,15 @@ def _group(tlist, cls, match,
 
     tidx_offset = 0
     pidx, prev_ = None, None
+    delimiters = _delimiters(tlist)
     for idx, token in enumerate(list(tlist)):
         tidx = idx - tidx_offset
         if tidx < 0:  # tidx shouldn't get negative
+            continue
+
+        if any(token is d for d in delimiters):
+            # never join the opening/closing token of a group
+            pidx, prev_ = None, None
             continue
 
         if token.is_whitespace:
@@ -475,6 +495,8 @@ def _group(tlist, cls, match,
 
         if match(token):
             nidx, next_ = tlist.token_next(tidx)
+            if any(next_ is d for d in delimiters):
+                nidx, next_ = None, None
             if prev_ and valid_prev(prev_) and valid_next(next_):
                 from_idx, to_idx = post(tlist, pidx, tidx, nidx)
                 grp = tlist.group_tokens(cls, from_idx, to_idx, extend=extend)
